@@ -129,6 +129,12 @@ package keeper
 //@   flag havoc=.OptIn,.OptInWithConsKey,NewWrappedConsKeyFromJSON
 //@   before[C10.ms.optin.signer] Keeper).OptIn requires arg_operatorAddress == bech32addr(old(req.FromAddress))
 //@   before[C10.ms.optinkey.signer] Keeper).OptInWithConsKey requires arg_operatorAddress == bech32addr(old(req.FromAddress))
+// C09 (an opt-in that reports failure has changed nothing): both steps of an opt-in - also the one with a consensus
+// key for a chain-type AVS - run on the cache of the message's context, which is written back only when the handler
+// succeeds.
+//@   before[C09.ms.optin.cached]    Keeper).OptIn requires arg_ctx != unwrap_ctx(goCtx)
+//@   before[C09.ms.optinkey.cached] Keeper).OptInWithConsKey requires arg_ctx != unwrap_ctx(goCtx)
+//@   ensures[C09.ms.optin.atomic]   err != nil ==> state(unwrap_ctx(goCtx)) == old(state(unwrap_ctx(goCtx)))
 
 //@ func (*MsgServerImpl).OptOutOfAVS
 //@   requires req != nil
@@ -233,7 +239,7 @@ package keeper
 //@ define isActiveOp(c, op, avs) = optRaw(c, op, avs) != nil && optInfo(c, op, avs).OptedOutHeight == 18446744073709551615 && !optInfo(c, op, avs).Jailed
 //@ func (*Keeper).IsActive
 //@   requires len(operatorAddr) > 0
-//@   ensures[C07.ia.spec] result == isActiveOp(ctx, accstr(operatorAddr), avsAddr)
+//@   ensures[C07.ia.spec,C06.ia.spec] result == isActiveOp(ctx, accstr(operatorAddr), avsAddr)
 
 //@ func (*Keeper).OptOut
 //@   requires len(operatorAddress) > 0
